@@ -46,7 +46,12 @@ META = {
             '(handshake, REGISTER, system.local/peers reads), the attempt served or failed by the node in each of the six ways (refused: + 1 '
             'preemption; thorough: served + 1 preemption on one node, Session.shutdown()); and a _HostReconnectionHandler attempt racing, on a '
             'second executor worker, the Cluster.on_up() that a STATUS_CHANGE UP event scheduled and that cancels the handler while its probe '
-            'connection is being opened, the shutdown at every blocking point of the two; and Cluster.connect() in one client '
+            'connection is being opened, the shutdown at every blocking point of the two; the reconnection delay as a parameter of the world: with '
+            'ConstantReconnectionPolicy(0) (every next attempt due at once: zero-delay schedule() calls) the queued scheduled attempt of '
+            'the _ControlReconnectionHandler (one node) and of a _HostReconnectionHandler (two nodes) is failed by the node in each of the '
+            'six ways (quick, host: refused / closed during the handshake) while the shutdown is under way (refused: + 1 preemption, so '
+            'also between _Scheduler.shutdown() and executor.shutdown(); else switches at blocking points), and layer E scenario ctlsched '
+            'with delay 0 to depth 6 (thorough 7); and Cluster.connect() in one client '
             'thread vs Cluster.shutdown() in another from an unconnected cluster (all schedules without preemption, i.e. switches at '
             'blocking points; thorough: + 1 preemption under a per-subtree cap).  Oracle, evaluated behind every shutdown after the '
             'default drain (answers delivered, queued tasks run, scheduler entries fired or dropped as _Scheduler would): every '
@@ -54,7 +59,8 @@ META = {
             'connection of the session, and everything after the following Cluster.shutdown(); no activity that started after the call '
             'returned made a connection attempt; no activity made a further connection attempt (next node of a plan, retry; also one '
             'that is refused or closed again at once) after an attempt of it had ended when the shutdown had already done all its work '
-            '(returned, or only waiting in executor.shutdown(wait=True)); execute_async() after the shutdown raises or fails (not sent, '
+            '(returned, or only waiting in executor.shutdown(wait=True)); no reconnection attempt (_ReconnectionHandler.run) that was handed '
+            'to the executor after Cluster.shutdown() had stopped the scheduler made a connection attempt; execute_async() after the shutdown raises or fails (not sent, '
             'not pending); Cluster.connect() after Cluster.shutdown() raises; the shutdown call itself does not raise or deadlock.',
     'note': 'Trusted: the virtual world (vt/world: clock, executor = FIFO queue whose shutdown(wait=True) runs what is queued like '
             'ThreadPoolExecutor, scheduler with the drop-after-shutdown rule of cluster._Scheduler, VConnection implementing only what '
@@ -220,6 +226,11 @@ def e_configs(ctx):
         ('ctlsched', dict(scenario='ctlsched', hosts=1, alphabet=['revive', 'sched'] + (['kill'] if t else []),
                           prefix=[('exec',), ('exec',), ('kill', 0)] + [('task', 0)] * 5, max_exec=2, killable=(0,), task_window=tw),
          9 if t else 7),
+        # the same with reconnection delay 0 (ConstantReconnectionPolicy(0): every next attempt is due at once, zero-delay
+        # schedule() calls): small
+        ('ctlsched0', dict(scenario='ctlsched0', hosts=1, reconnect_delay=0, reconnect_attempts=8, alphabet=['revive', 'sched'],
+                           prefix=[('exec',), ('exec',), ('kill', 0), ('advance', 'control-handler-armed')], max_exec=2, killable=(0,),
+                           task_window=tw), 7 if t else 6),
         # three nodes, the control connection's node dies and the next node of the plan does not serve NEW connections
         # (closes them at the first / third request, never answers, fails STARTUP): the reconnect has to go on to the third
     ] + [
@@ -404,6 +415,19 @@ def s_configs(ctx):
     # attempt's connection is being opened; the shutdown comes at any blocking point of the two
     to_probe_up = to_probe + [('push', 'UP', 1), ('sched',)]
     out.append((dict(prefix=to_probe_up, scenario='probeup', kind='cluster', server='ok', workers=2), 0, None))
+    # the reconnection delay is a parameter of the world: with ConstantReconnectionPolicy(0) the next attempt of a handler is due
+    # the moment the previous one failed (zero-delay schedule() calls).  The scheduled control-connection attempt (one node, back
+    # again) and the host reconnector's attempt (two nodes) are queued (goal-directed prefix: default continuation until the
+    # attempt is at the head of the executor queue, however the driver got it there); the attempt FAILS in each way while the
+    # shutdown is under way, so that the handler asks for its next attempt of a scheduler that is being / has been stopped
+    zero = dict(reconnect_delay=0, reconnect_attempts=8)
+    to_ctl0 = [('exec',), ('exec',), ('kill', 0), ('advance', 'control-handler-armed'), ('revive', 0), ('advance', 'control-attempt-queued')]
+    to_probe0 = [('exec',), ('exec',), ('kill', 1), ('advance', 'host-attempt-queued'), ('revive', 1)]
+    for name, p in (('ctlsched0', dict(zero, hosts=1, prefix=to_ctl0)), ('probe0', dict(zero, prefix=to_probe0))):
+        for f in sorted(c45lib.FAULTS) if (ctx.thorough or name == 'ctlsched0') else ('refuse', 'eof0'):
+            out.append((dict(p, scenario=name, kind='cluster', server=f), 1 if f == 'refuse' else 0, None))
+        if ctx.thorough:
+            out.append((dict(p, scenario=name, kind='cluster', server='eof0'), 1, 40))
     # Cluster.connect() in one client thread, Cluster.shutdown() in another, from an unconnected cluster
     for order in ((1, -1) if ctx.thorough else (1,)):
         out.append((dict(scenario='connect', kind='cluster', server='ok', race_connect=True, future_order=order),
@@ -508,12 +532,18 @@ def run(ctx):
                        '_ReconnectionHandler.run task of that handler kind was running and its connection was open (handshake under way / done); '
                        '..._reconnection_handler_cancelled_during_its_attempt = the handler was not cancelled when its attempt began and was '
                        'when it was over (host: when its Connection.factory() call ended; control: when the task ended), the attempt having '
-                       'opened a connection.')
+                       'opened a connection.  Scenarios ctlsched0 / probe0 run with reconnection delay 0; their prefix is goal-directed '
+                       '(event (\'advance\', goal): default continuation until the handler is armed / its attempt is at the head of the '
+                       'executor queue).')
     ctx.assume('"after shutdown" is judged from the moment the shutdown call has returned; what the call itself runs while draining the '
                'executor (ThreadPoolExecutor.shutdown(wait=True) lets queued tasks run) is part of the call: such a task may still make '
                'the ONE connection attempt it is about (it must close it).  Not a second one: once an attempt of an activity has ended '
                'while Cluster.shutdown() had set every flag, shut down scheduler, control connection and sessions and was only waiting '
                'for the executor (or had returned), a further attempt by that activity is a new attempt after the shutdown')
+    ctx.assume('the scheduler is stopped from the moment _Scheduler.shutdown() has returned inside Cluster.shutdown(); a reconnection '
+               'attempt task handed to the executor from then on (whoever hands it over) that goes as far as constructing a connection '
+               'is a reconnection attempt started after the shutdown, also while Cluster.shutdown() has not returned yet; one handed '
+               'over before that moment and still queued is covered by the first assumption')
     ctx.assume('an attempt of an activity ends when Connection.factory() returns or raises in its thread, or when that thread calls close() '
                'on a connection; a shutdown that completes between that moment and the start of the next attempt is not held against '
                'the driver (check-then-act window without a lock)')
